@@ -73,6 +73,11 @@ def check(case, out):
     tol = tol_of(ref)
 
     params = gen.params_of(c["U"], 3)
+    if exact:
+        tiny = F(1, 10 ** 30)
+        params = sorted(params + [z - tiny for z in interior] + [z + tiny for z in interior]
+                        + [bk[0] + tiny, bk[-1] - tiny])
+        out.cls("knot+-1e-30")
     lparams = []
     for u in params:
         if exact:
